@@ -181,7 +181,7 @@ def explore(run, progs, mode, log2stripes, maxsched, label):
             p.kill()
             raise Infra("lin driver timed out")
         if p.returncode != 0:
-            raise Infra("lin driver failed: %s" % se[-3000:])
+            run.driver_failed("lin driver failed", se)
     return outs
 
 
